@@ -21,6 +21,7 @@ import SpsdkVerif.Model.Dat
 import SpsdkVerif.Proofs.Dat
 import SpsdkVerif.Model.DatV2
 import SpsdkVerif.Proofs.DatV2
+import SpsdkVerif.Proofs.DatOrder
 import SpsdkVerif.Crypto.Break
 import SpsdkVerif.Spec.Rotkh
 
@@ -600,5 +601,123 @@ theorem versions_inhabited : ∀ v ∈ DatConsts.versions, ∃ dc, WF srkWalk dc
 /-- concrete sanity check of the whole chain on a P-384 credential with four RoT keys, used index 3 -/
 example : (exportDC (exEcc 1 48 48 4 3)).toOption.map List.length = some 520 := by decide +kernel
 example : ((exportDC (exEcc 1 48 48 4 3)).toOption.map (parseEcc ·)) = some (.ok (exEcc 1 48 48 4 3)) := by decide +kernel
+
+/-! ## 9. Field ORDER at the three sites — data to sign, export, parse — for every credential class, challenge and response
+(Phase 3).  The generator obtains one table PER SITE by running the current method on distinctive values (no two attributes
+carry the same value), so a swap of two arguments at one site changes exactly one table and stops the list equalities below,
+whatever values real credentials carry. -/
+
+section Order
+open SpsdkVerif.DatV2
+
+/-- **signed_fields_are_exported_prefix**: for the RSA, ECC and EdgeLock-v1 classes the table of `export()` is the table of
+    `_get_data_to_sign()` followed by exactly one field, the signature; `parse()` reads the same attributes in the same order as
+    `export()` writes them, so the signed attributes are a prefix of what is parsed.  For the EdgeLock-v2 class (AHAB certificate):
+    `export()` = `get_signature_data()` followed by the signature container, `parse()` reads the same struct codes and puts every
+    value it keeps into the attribute `export()` packs at that position. -/
+theorem signed_fields_are_exported_prefix :
+    (∀ c : Cls, exportLayout c = signLayout c ++ [sigField c] ∧ (sigField c).2 = .sig ∧
+      argsOf (parseLayout c) = argsOf (exportLayout c) ∧
+      (argsOf (parseLayout c)).take (signLayout c).length = argsOf (signLayout c)) ∧
+    (DatConsts.certExportFields = DatConsts.certSignFields ++ [(.raw, .sig0)] ∧
+      DatConsts.certParseFields.map (·.1) = DatConsts.certExportFields.map (·.1) ∧
+      ∀ p ∈ DatConsts.certParseFields.zip DatConsts.certExportFields, p.1.2 = .dropped ∨ p.1.2 = p.2.2) :=
+  ⟨fun c => ⟨(order_v1 c).1, (order_v1 c).2.1, (order_v1 c).2.2.1, (order_v1 c).2.2.2.1⟩,
+   order_v2.1, order_v2.2.1, order_v2.2.2.1⟩
+
+/-- **signed_fields_cover_the_credential**: every attribute of the credential object other than the signature is signed, exactly
+    once (no attribute is packed twice in place of another); the signature is not.  v2: every head field, the key record and the
+    key data are signed (the only role that occurs twice is `reserved`), the signature container is not; `parse()` keeps length,
+    signature offset, permissions, permission data, fuse version, UUID, key and signature. -/
+theorem signed_fields_cover_the_credential :
+    (∀ c : Cls, (argsOf (signLayout c)).Nodup ∧ (∀ a ∈ dcAttrs c, a ∈ argsOf (signLayout c)) ∧
+      DatArg.sig ∉ argsOf (signLayout c) ∧ (argsOf (signLayout c)).length = (dcAttrs c).length) ∧
+    ((DatConsts.certSignFields.map (·.2)).eraseDups.length + 1 = (DatConsts.certSignFields.map (·.2)).length ∧
+      (∀ r ∈ [CertRole.version, .length, .tag, .sigOffset, .invPerm, .perm, .permData, .fuse, .uuid, .keyRecord, .keyData],
+        r ∈ DatConsts.certSignFields.map (·.2)) ∧
+      CertRole.sig0 ∉ DatConsts.certSignFields.map (·.2) ∧
+      (∀ r ∈ [CertRole.length, .sigOffset, .perm, .permData, .fuse, .uuid, .keyRecord, .keyData, .sig0],
+        r ∈ DatConsts.certParseFields.map (·.2))) :=
+  ⟨fun c => (order_v1 c).2.2.2.2, order_v2.2.2.2⟩
+
+/-- **dcv2_bytes_follow_tables**: whenever the v2 credential exports, the bytes are the generated export table interpreted field by
+    field, the signed data is the generated signed-data table interpreted the same way, and it is a prefix of the export — the
+    hand-written head of the model cannot drift from the order the source packs. -/
+theorem dcv2_bytes_follow_tables (c : Cert) (b : Bytes) (h : exportCert c = .ok b) :
+    b = DatConsts.certExportFields.flatMap (certFieldBytes c) ∧
+    ∃ d, signedData c = .ok d ∧ d = DatConsts.certSignFields.flatMap (certFieldBytes c) ∧ d <+: b :=
+  exportCert_follows_table c b h
+
+example : (exportCert exCert).toOption.isSome = true := by decide +kernel
+
+/-- the sequential reader of the model steps over the widths of the generated parse table and keeps what the table says is kept -/
+theorem dcv2_parse_follows_table :
+    (DatConsts.certParseFields.take 11).map (·.1) =
+      [.u8, .u16, .u8, .u16, .u8, .u8, .bytes DatConsts.certPermDataSize, .u8, .u8, .u16, .bytes DatConsts.certUuidSize] ∧
+    (DatConsts.certParseFields.take 11).map (·.2) =
+      [.dropped, .length, .dropped, .sigOffset, .dropped, .perm, .permData, .fuse, .dropped, .dropped, .uuid] ∧
+    (DatConsts.certParseFields.drop 11).map (·.2) = [.keyRecord, .keyData, .sig0] := readHead_widths
+
+/-- **dar_signed_fields_are_exported_prefix**: for the response class of every protocol version, signed message = common data ‖
+    challenge of the DAC and exported packet = common data ‖ signature — the same fields in the same order up to the last one;
+    the common data starts with the exported credential, contains the authentication beacon and, exactly for the ECC classes
+    (major version 2), the UUID *of the challenge*; nothing occurs twice, the signature is not signed. -/
+theorem dar_signed_fields_are_exported_prefix :
+    (∀ u : Bool, darSignedFields u = darCommonLayout u ++ [(.raw, .dacChallenge)] ∧
+      darExportedFields u = darCommonLayout u ++ [(.raw, .signature)] ∧
+      (darExportedFields u).dropLast = (darSignedFields u).dropLast ∧
+      (darCommonLayout u).head? = some (.raw, .dcExport) ∧ (argsOf (darSignedFields u)).Nodup ∧
+      ((DatArg.dacUuid ∈ argsOf (darSignedFields u)) ↔ u = true) ∧
+      DatArg.authBeacon ∈ argsOf (darSignedFields u) ∧ DatArg.dacChallenge ∈ argsOf (darSignedFields u) ∧
+      DatArg.signature ∉ argsOf (darSignedFields u)) ∧
+    (∀ v ∈ DatConsts.versions, darUsesEcc v.1 v.2 = some (v.1 == 2)) :=
+  ⟨order_dar, gen_dar.2.2.2.2.2.1⟩
+
+/-- … and the signed message of the model is that table interpreted field by field (no well-formedness needed) -/
+theorem dar_msg_follows_table (r : DAR) (m : Bytes) (h : darMsg r = .ok m) (sig : Bytes) :
+    m = (darSignedFields r.usesEcc).flatMap (darFieldBytesX r sig) := darMsg_follows_table r m h sig
+
+example : (darMsg ⟨exEcc 1 48 48 4 3, 5, List.replicate 16 1, List.replicate 32 2, true⟩).toOption.isSome = true := by
+  decide +kernel
+
+/-- **dac_fields_export_is_parse**: `DebugAuthenticationChallenge.export()` writes the attributes `parse()` reads, in the same
+    order, each once; the 32-byte challenge vector is the last field -/
+theorem dac_fields_export_is_parse :
+    argsOf DatConsts.dacExport = argsOf DatConsts.dacParseLayout ∧ (argsOf DatConsts.dacExport).Nodup ∧
+    argsOf DatConsts.dacExport = [.major, .minor, .socc, .uuid, .revocation, .rkthHash, .socPinned, .socDefault, .ccVu, .challenge] ∧
+    DatConsts.dacParseLayout.getLast? = some (.bytes (.fixed 32), .challenge) := order_dac
+
+end Order
+
+/-! ## 10. RoT hash: a function of the key list -/
+
+/-- **dc_rot_hash_depends_only_on_keys**: two credentials whose RoT meta was built (`load_from_config`) from the same key list have
+    the same RoT hash, whatever else differs — SoC class, UUID, constraints, beacon, DCK, signature and, for ECC, the index of the
+    used key (with a single key the hash is that of the key itself, which is then the used one).  RSA and EdgeLock: the hash is a
+    function of the RoT meta alone. -/
+theorem dc_rot_hash_depends_only_on_keys (c : CryptoOps) (hl : CryptoLaws c) :
+    (∀ (ks : List Bytes) (d₁ d₂ : DC), d₁.cls = .rsa → d₂.cls = .rsa →
+      rsaMetaOfKeys c ks = .ok d₁.rotMeta → rsaMetaOfKeys c ks = .ok d₂.rotMeta → calculateHash c d₁ = calculateHash c d₂) ∧
+    (∀ (ks : List Bytes) (u₁ u₂ : Nat) (d₁ d₂ : DC), d₁.cls = .ecc → d₂.cls = .ecc →
+      eccMetaOfKeys c ks u₁ = .ok d₁.rotMeta → eccMetaOfKeys c ks u₂ = .ok d₂.rotMeta →
+      ks[u₁]? = some d₁.rotPub → ks[u₂]? = some d₂.rotPub → calculateHash c d₁ = calculateHash c d₂) ∧
+    (∀ (d₁ d₂ : DC) (u₁ u₂ n₁ n₂ : Nat) (srk : Bytes), d₁.cls = .ele → d₂.cls = .ele →
+      d₁.rotMeta = .ele u₁ n₁ srk → d₂.rotMeta = .ele u₂ n₂ srk → calculateHash c d₁ = calculateHash c d₂) := by
+  refine ⟨?_, ?_, ?_⟩
+  · intro ks d₁ d₂ h₁ h₂ m₁ m₂
+    have e : d₁.rotMeta = d₂.rotMeta := Except.ok.inj (m₁.symm.trans m₂)
+    cases hm : d₂.rotMeta <;> simp [calculateHash, h₁, h₂, e, hm]
+  · intro ks u₁ u₂ d₁ d₂ h₁ h₂ m₁ m₂ p₁ p₂
+    exact rot_hash_only_keys_ecc c hl ks u₁ u₂ d₁ d₂ h₁ h₂ m₁ m₂ p₁ p₂
+  · intro d₁ d₂ u₁ u₂ n₁ n₂ srk h₁ h₂ m₁ m₂
+    simp [calculateHash, h₁, h₂, m₁, m₂]
+
+/-- the hypotheses are satisfiable: two P-256 keys, used index 0 and 1 -/
+example (c : CryptoOps) :
+    let ks : List Bytes := [List.replicate 64 1, List.replicate 64 2]
+    eccMetaOfKeys c ks 0 = .ok (.ecc 0 2 (ks.map (c.hash .sha256))) ∧ eccMetaOfKeys c ks 1 = .ok (.ecc 1 2 (ks.map (c.hash .sha256))) ∧
+    ks[1]? = some (List.replicate 64 2) := by
+  refine ⟨?_, ?_, rfl⟩ <;> rfl
+
 
 end SpsdkVerif.C15
